@@ -1,5 +1,5 @@
 """C13 — read-only queries are total on arbitrary object graphs."""
-import json, os, random, collections
+import json, os, random, collections, re
 from concurrent.futures import ThreadPoolExecutor
 import vlib
 from vlib import Check, tlc, run_bin, workdir, write_ndjson, read_ndjson, log
@@ -55,12 +55,135 @@ DEPTH_CLASSES = {"resources.parent.depth", "outline.first.depth", "nameddest.kid
 NONE_VAL = {"k": "none", "n": 0, "s": "", "e": [], "d": []}
 
 
-def as_doc_rec(doc, obs, ran, res):
-    return {"fam": "", "len": 0, "doc": doc, "obs": obs, "ran": ran, "res": res}
+def as_doc_rec(doc, obs, ran, res, via=""):
+    return {"fam": "", "len": 0, "via": via, "doc": doc, "obs": obs, "ran": ran, "res": res}
 
 
 def as_fam_rec(r):
-    return {"fam": r["fam"], "len": r["len"], "doc": {"objs": [], "root": NONE_VAL}, "obs": r["obs"], "ran": True, "res": r["res"]}
+    return {"fam": r["fam"], "len": r["len"], "via": "", "doc": {"objs": [], "root": NONE_VAL}, "obs": r["obs"], "ran": True, "res": r["res"]}
+
+
+# ---------------------------------------------------------------------------------------------------------------------
+# Key vocabulary as a function of the tree under test.  Every b"Name" literal the anchored files hand to get / get_deref /
+# has / get_dict_in_dict ... is harvested from $VERIF_REPO/src when the check runs.  (a) The random chaos generator draws
+# its keys from that vocabulary.  (b) A systematic sweep binds every harvested key, in every dictionary the walkers of
+# that file visit (host), to a value of every kind and to references forming cycles among visited dictionaries: host[K1]
+# -> X, X/Y/Z linked by K2 as a rho, a self-loop beside the entry, a ring, a ring through the host, a self-loop, an open
+# chain; once with the host as it is and once with each of its own entries removed (a fallback path often needs the usual
+# entry to be absent).  A (file, key) pair that is not in BASELINE_KEYS — a key the code did not read when the walker
+# models were last aligned with it — is swept exhaustively; the rest is sampled (seeded).
+ANCHORED = ["document.rs", "outlines.rs", "destinations.rs", "toc.rs", "parser_aux.rs", "object.rs"]
+LOOKUP = re.compile(r'\b(?:get|get_mut|get_deref|has|remove|get_dict_in_dict|get_object_in_dict)\s*\(\s*(?:[A-Za-z_&.]+\s*,\s*)?'
+                    r'b"([A-Za-z][A-Za-z0-9]{0,30})"')
+BASELINE_KEYS = {
+    "document.rs": ["Annots", "BitsPerComponent", "CF", "CFM", "ColorSpace", "Contents", "Count", "DecodeParms", "Encrypt", "Filter",
+                    "Font", "Height", "Kids", "Name", "Pages", "Parent", "Resources", "Root", "Subtype", "Type", "Width", "XObject"],
+    "outlines.rs": ["A", "D", "Dest", "Dests", "First", "Names", "Next", "Outlines", "S", "Title"],
+    "destinations.rs": ["D", "Kids", "Names", "Page", "Title"],
+    "toc.rs": ["Page", "Title"],
+    "parser_aux.rs": ["Index", "Length", "Size", "W"],
+    "object.rs": ["BaseEncoding", "BitsPerComponent", "Colors", "Columns", "DecodeParms", "Differences", "EarlyChange", "Encoding",
+                  "Filter", "Linearized", "Predictor", "ToUnicode", "Type"],
+}
+# objects of the 12-object skeleton (c13.rs skeleton()) the walkers of a file visit
+HOSTS = {"outlines.rs": [1, 7, 8, 9], "toc.rs": [1, 7, 8], "destinations.rs": [1, 10, 11],
+         "document.rs": [1, 2, 3, 12, 6], "parser_aux.rs": [3, 4], "object.rs": [5, 6, 4]}
+SHAPES = {"rho": {0: 1, 1: 2, 2: 1}, "beside": {0: 1, 1: 1}, "ring": {0: 1, 1: 2, 2: 0}, "ringhost": {0: 1, 1: 2, 2: -1},
+          "self": {0: 0}, "chain": {0: 1, 1: 2}}
+
+
+def harvest_keys():
+    out = {}
+    for f in ANCHORED:
+        path = os.path.join(vlib.REPO, "src", f)
+        if not os.path.exists(path):
+            raise vlib.ToolError("anchored file %s missing in %s" % (f, vlib.REPO))
+        text = open(path, encoding="utf-8", errors="replace").read()
+        cut = text.find("#[cfg(test)]")
+        out[f] = sorted(set(LOOKUP.findall(text[:cut] if cut > 0 else text)))
+    if sum(len(v) for v in out.values()) < 30 or "First" not in out["outlines.rs"] or "Parent" not in out["document.rs"]:
+        raise vlib.ToolError("key harvest from %s/src looks broken: %s" % (vlib.REPO, out))
+    return out
+
+
+def V(k, n=0, s="", e=None, d=None):
+    return {"k": k, "n": n, "s": s, "e": e or [], "d": d or []}
+
+
+def node_template(host):
+    dest = V("arr", e=[V("ref", 3), V("name", s="Fit")])
+    if host in (7, 8, 9):
+        return V("dict", d=[["Title", V("str", s="a")], ["Dest", dest]])
+    if host in (10, 11):
+        return V("dict", d=[["Names", V("arr", e=[V("str", s="t"), V("dict", d=[["D", dest]])])]])
+    if host in (2, 3):
+        return V("dict", d=[["Type", V("name", s="Pages")], ["Kids", V("arr")], ["Count", V("int", 0)]])
+    return V("dict", d=[["Type", V("name", s="Font")]])
+
+
+def set_key(obj, key, val):
+    for p in obj["d"]:
+        if p[0] == key:
+            p[1] = val
+            return
+    obj["d"].append([key, val])
+
+
+def sweep_docs(skeleton, harvested, quick, rng):
+    """returns (records, stats): records = {"doc", "via", "novel"}; combinations are enumerated first, documents are built
+    only for the chosen ones"""
+    import copy
+    n0 = len(skeleton)
+    kinds = [V("null"), V("bool", 1), V("int", -1), V("int", 0), V("int", 2), V("int", 1 << 30), V("real"), V("name", s="Other"),
+             V("str", s="t"), V("arr"), V("arr", e=[V("int", 1)]), V("dict"), V("stream"), V("ref", 0)]
+    vals = kinds + [V("ref", i) for i in range(1, n0 + 1)]
+    novel_pairs, combos_novel, combos_rest = [], [], []
+    for f in ANCHORED:
+        keys = harvested[f]
+        new = [k for k in keys if k not in BASELINE_KEYS.get(f, [])]
+        novel_pairs += [(f, k) for k in new]
+        for host in HOSTS[f]:
+            hobj = skeleton[host - 1]
+            if hobj["k"] not in ("dict", "stream"):
+                continue
+            dels = [None] + [p[0] for p in hobj["d"]]
+            for k1 in keys:
+                for vi in range(len(vals)):       # every harvested key bound to every kind / a reference to each object
+                    (combos_novel if k1 in new else combos_rest).append(("kind", host, k1, vi))
+                for k2 in keys:                   # cycles: host[K1] -> X, X/Y/Z linked by K2
+                    tgt = combos_novel if (k1 in new or k2 in new) else combos_rest
+                    for shape in SHAPES:
+                        for dl in dels:
+                            if dl != k1:
+                                tgt.append(("cycle", host, k1, k2, shape, dl))
+    cap = 2500 if quick else 40000
+    rng.shuffle(combos_rest)
+
+    def build(c, isnew):
+        objs = copy.deepcopy(skeleton)
+        if c[0] == "kind":
+            _, host, k1, vi = c
+            set_key(objs[host - 1], k1, copy.deepcopy(vals[vi]))
+            via = "kind.%s" % k1
+        else:
+            _, host, k1, k2, shape, dl = c
+            nodes = [node_template(host) for _ in range(3)]
+            for x, y in SHAPES[shape].items():
+                set_key(nodes[x], k2, V("ref", host if y == -1 else n0 + 1 + y))
+            h = objs[host - 1]
+            if dl is not None:
+                h["d"] = [p for p in h["d"] if p[0] != dl]
+            set_key(h, k1, V("ref", n0 + 1))
+            objs += nodes
+            via = "cycle.%s.%s" % (k1, k2)
+        return {"doc": {"objs": objs, "root": V("ref", 1)}, "via": via, "novel": isnew}
+
+    recs = [build(c, True) for c in combos_novel] + [build(c, False) for c in combos_rest[:cap]]
+    stats = {"keys_harvested": {f: harvested[f] for f in ANCHORED},
+             "keys_read_by_the_code_but_not_in_the_baseline": ["%s:%s" % p for p in novel_pairs],
+             "sweep_documents_for_new_keys": len(combos_novel), "sweep_documents_sampled_of_the_rest": min(cap, len(combos_rest)),
+             "sweep_combinations_rest_total": len(combos_rest)}
+    return recs, stats
 
 
 def dkey(doc):
@@ -139,7 +262,10 @@ def run(tier):
     quick = tier == "quick"
     chk.rule = ("documents enumerated by TLC (MC_Queries scenarios: every key a walker reads x every kind class, <= 4 objects) and "
                 "seeded random typed-chaos documents (<= 12 objects: random dictionaries and a well-formed 12-object skeleton with "
-                "1-4 bindings replaced by a random kind) and deterministic long-chain families (11 families x lengths 1 .. 100 000, "
+                "1-4 bindings replaced by a random kind; key names = those the sources under test look up, harvested at check time), "
+                "a systematic sweep of every harvested key over the dictionaries the walkers visit (every kind; references forming "
+                "rho / ring / self-loop shapes among visited nodes; host entries removed in turn; new keys exhaustively, the rest "
+                "sampled) and deterministic long-chain families (11 families x lengths 1 .. 100 000, "
                 "one evaluation each: 7 document-level + 14 per-object queries on the fixed objects, head, middle and end of the "
                 "chain); each executed document = one evaluation (all public read-only queries on "
                 "every object id); non-trivial = some object is a dictionary a per-object query entered or a reference chain exists; "
@@ -233,7 +359,9 @@ def run(tier):
     # ---------------------------------------------------------------- (V) seeded random documents: predict, execute, judge
     n = 500 if quick else 16000
     gpath = os.path.join(w, "random.ndjson")
-    run_bin("c13", ["gen", "--seed", vlib.seed(), "--n", n, "--out", gpath])
+    harvested = harvest_keys()
+    allkeys = sorted({k for ks in harvested.values() for k in ks})
+    run_bin("c13", ["gen", "--seed", vlib.seed(), "--n", n, "--keys", ",".join(allkeys), "--out", gpath])
     rdocs = read_ndjson(gpath)
     chunks = 3 if quick else 12
     pre, s1, t1 = vlib.validate_trace("Trace_Queries.tla", "Trace_Queries.cfg",
@@ -250,7 +378,12 @@ def run(tier):
         raise vlib.ToolError("vacuous random set: documents of only %d formerly failing classes" % len(rwas))
     chk.extra["random_documents_calls_of_formerly_failing_classes"] = dict(sorted(rwas.items()))
 
-    allrecs = mrecs + rrecs
+    # (V3) the systematic sweep of the harvested keys over the skeleton (the generator's first document)
+    srecs_meta, sweep_stats = sweep_docs(rdocs[0]["doc"]["objs"], harvested, quick, rng)
+    srecs = [{"doc": m["doc"]} for m in srecs_meta]
+    chk.extra["key_vocabulary"] = sweep_stats
+    nran = len(rrecs)
+    allrecs = mrecs + rrecs + srecs
     cin, cout = os.path.join(w, "run.ndjson"), os.path.join(w, "run.out.ndjson")
     write_ndjson(cin, allrecs)
     run_bin("c13", ["run", "--in", cin, "--out", cout, "--timeout-ms", timeout_ms, "--mem-mb", 1024], timeout=3000)
@@ -277,6 +410,9 @@ def run(tier):
     # (chain-scenario documents have hundreds of objects in the thorough tier: the recursive *Run operators of the judge
     # are not meant for them; their outcomes are checked against the automata by ChainOK and against lopdf by mc_drift)
     keep = set([i for i in passing_mc if docs[i]["src"] != "mc:chain"][: (300 if quick else 3000)])
+    passing_sw = [i for i in range(nmc + nran, len(allrecs)) if outs[i]["ran"] and not outs[i]["obs"]]
+    rng.shuffle(passing_sw)
+    keep |= set(passing_sw[: (300 if quick else 3000)])
     executed = 0
     drift = 0
     drift_examples = []
@@ -295,8 +431,9 @@ def run(tier):
                     drift_examples.append({"scenario": p["sc"], "walker": p["w"], "arg": p["arg"], "model": p["pc"], "model_result": p["res"][:8],
                                            "objects": len(rec["doc"]["objs"]),
                                            "lopdf": {k: (v if not isinstance(v, list) else v[max(0, p["arg"] - 1): p["arg"]]) for k, v in o["res"].items()}})
-        if i >= nmc or o["obs"] or i in keep:
-            judged.append(as_doc_rec(rec["doc"], o["obs"], True, o["res"]))
+        if nmc <= i < nmc + nran or o["obs"] or i in keep:
+            via = srecs_meta[i - nmc - nran]["via"] if i >= nmc + nran else ""
+            judged.append(as_doc_rec(rec["doc"], o["obs"], True, o["res"], via))
             jsrc.append(i)
     # (B) negative controls ride along: an injected observation must be rejected, with a generic (not a known) signature
     ctl = next((i for i in passing_mc if docs[i]["src"] == "mc:toc"), passing_mc[0] if passing_mc else None)
@@ -338,7 +475,9 @@ def run(tier):
         for sig, ob in zip(v["sigs"], o["obs"]):
             seen_classes[sig] += 1
             chk.violation("C13:" + sig, {"doc": allrecs[i]["doc"], "query": ob["q"], "id": ob["id"], "outcome": ob["kind"],
-                                         "msg": ob.get("msg", ""), "source": docs[i]["src"] if i < nmc else "random"})
+                                         "msg": ob.get("msg", ""),
+                                         "source": docs[i]["src"] if i < nmc else "random" if i < nmc + nran else
+                                         "sweep:" + srecs_meta[i - nmc - nran]["via"]})
     # the chain families
     fam_calls = 0
     fam_fail = collections.Counter()
@@ -369,7 +508,7 @@ def run(tier):
     chk.transitions = chk.extra.get("mc_transitions", 0) + s1 + s2
     chk.traces = len(judged)
     chk.extra.update({
-        "trace_states": s1 + s2, "documents_enumerated_by_tlc": nmc, "documents_random": len(rrecs),
+        "trace_states": s1 + s2, "documents_enumerated_by_tlc": nmc, "documents_random": len(rrecs), "documents_key_sweep": len(srecs),
         "documents_executed": executed, "skipped_predicted_hang_or_overflow": nskip + nskip_r,
         "records_judged_by_tlc": len(judged) + nf, "model_drift": drift, "model_drift_examples": drift_examples,
         "failing_calls_by_signature": dict(sorted(seen_classes.items())),
